@@ -58,6 +58,7 @@ var (
 	ErrEmptyKey          = errors.New("entry key cannot be empty")
 	ErrKeyTooLong        = errors.New("entry key exceeds the maximum encodable length of 65535 bytes")
 	ErrFileClosed        = errors.New("file is closed")
+	ErrWriterBroken      = errors.New("a failed write could not be rolled back yet")
 	ErrCompactionRunning = errors.New("compaction is already running")
 )
 
